@@ -20,8 +20,63 @@ import simunit
 
 PID = "C02"
 
+IO_OUTPUT_CONTRACT = """
+/* HexSimIO::output: one stream operation; streams below 256 (as a signed int) go to the standard stream, others to the
+   lazily opened file simout<(stream >> 8) & 7>; nothing else changes */
+__CPROVER_requires(g_io_calls >= 0 && g_io_calls < 1000 && g_opens >= 0 && g_opens < 1000)
+__CPROVER_ensures(g_io_calls == __CPROVER_old(g_io_calls) + 1 && g_ev_kind == EV_WRITE && g_ev_byte == (uint8_t)value)
+__CPROVER_ensures(g_ev_to_file == !(stream < 256))
+__CPROVER_ensures(stream < 256 ==> g_opens == __CPROVER_old(g_opens))
+__CPROVER_ensures(!(stream < 256) ==> (g_ev_file == ((stream >> 8) & 7) && connected[(stream >> 8) & 7] &&
+                  g_opens == __CPROVER_old(g_opens) + (__CPROVER_old(connected[(stream >> 8) & 7]) ? 0 : 1)))
+__CPROVER_ensures((!(stream < 256) && !__CPROVER_old(connected[(stream >> 8) & 7])) ==> (g_open_idx == ((stream >> 8) & 7) && g_open_name == 1 && g_open_mode == OPEN_out))
+__CPROVER_assigns(g_io_calls, g_ev_kind, g_ev_to_file, g_ev_file, g_ev_byte, g_opens, g_open_idx, g_open_mode, g_open_name, connected[(stream >> 8) & 7])
+"""
+IO_INPUT_CONTRACT = """
+/* HexSimIO::input: one stream operation returning the next byte of the selected stream (the harness oracle), -1 at end */
+__CPROVER_requires(g_io_calls >= 0 && g_io_calls < 1000 && g_opens >= 0 && g_opens < 1000 && g_oracle_in >= -1 && g_oracle_in <= 255)
+__CPROVER_ensures(g_io_calls == __CPROVER_old(g_io_calls) + 1 && g_ev_kind == EV_READ && ((int)__CPROVER_return_value & 0xFF) == (g_oracle_in & 0xFF))
+__CPROVER_ensures(g_ev_to_file == !(stream < 256))
+__CPROVER_ensures(stream < 256 ==> g_opens == __CPROVER_old(g_opens))
+__CPROVER_ensures(!(stream < 256) ==> (g_ev_file == ((stream >> 8) & 7) && connected[(stream >> 8) & 7] &&
+                  g_opens == __CPROVER_old(g_opens) + (__CPROVER_old(connected[(stream >> 8) & 7]) ? 0 : 1)))
+__CPROVER_ensures((!(stream < 256) && !__CPROVER_old(connected[(stream >> 8) & 7])) ==> (g_open_idx == ((stream >> 8) & 7) && g_open_name == 2 && g_open_mode == OPEN_in))
+__CPROVER_assigns(g_io_calls, g_ev_kind, g_ev_to_file, g_ev_file, g_opens, g_open_idx, g_open_mode, g_open_name, connected[(stream >> 8) & 7])
+"""
+SYSCALL_CONTRACT = """
+/* Processor::syscall: sp = mem[1]; 0: exit with mem[sp+2]; 1: simout(mem[sp+2], mem[sp+3]); 2: mem[sp+1] = simin(mem[sp+2]) & 0xFF */
+__CPROVER_requires(areg <= 2 && truncateInputs && !verif_thrown && memory[1] + 3 > memory[1] && memory[1] + 3 < MEMORY_SIZE_WORDS)
+__CPROVER_requires(g_io_calls >= 0 && g_io_calls < 1000 && g_opens >= 0 && g_opens < 1000 && g_oracle_in >= -1 && g_oracle_in <= 255)
+__CPROVER_ensures(!verif_thrown)
+__CPROVER_ensures(areg == 0 ==> (!running && exitCode == (int)memory[memory[1] + 2] && g_io_calls == __CPROVER_old(g_io_calls)))
+__CPROVER_ensures(areg != 0 ==> (running == __CPROVER_old(running) && exitCode == __CPROVER_old(exitCode) && g_io_calls == __CPROVER_old(g_io_calls) + 1))
+__CPROVER_ensures(areg == 1 ==> (g_ev_kind == EV_WRITE && g_ev_byte == (uint8_t)memory[memory[1] + 2] && g_ev_to_file == !((int)memory[memory[1] + 3] < 256) &&
+                  (!g_ev_to_file || g_ev_file == (int)((memory[memory[1] + 3] >> 8) & 7))))
+__CPROVER_ensures(areg == 2 ==> (g_ev_kind == EV_READ && memory[__CPROVER_old(memory[1]) + 1] == ((uint32_t)g_oracle_in & 0xFFu) && g_ev_to_file == !((int)__CPROVER_old(memory[memory[1] + 2]) < 256)))
+__CPROVER_ensures(areg != 2 ==> memory[__CPROVER_old(memory[1]) + 1] == __CPROVER_old(memory[memory[1] + 1]))
+__CPROVER_assigns(running, exitCode, verif_thrown, g_io_calls, g_ev_kind, g_ev_to_file, g_ev_file, g_ev_byte, g_opens, g_open_idx, g_open_mode, g_open_name,
+                  __CPROVER_object_whole(connected))
+__CPROVER_assigns(areg == 2: memory[memory[1] + 1])
+"""
+IO_HARNESS = r"""
+#ifdef HEX_CBMC
+char nondet_char(void);
+void h_io_output(void) { for (int i = 0; i < 8; i++) connected[i] = nondet_bool(); g_io_calls = nondet_int(); g_opens = nondet_int(); io_output(nondet_char(), nondet_int()); }
+void h_syscall(void) { havoc_state(); g_io_calls = nondet_int(); g_opens = nondet_int(); g_oracle_in = nondet_int(); syscall(); }
+void h_io_input(void) { for (int i = 0; i < 8; i++) connected[i] = nondet_bool(); g_io_calls = nondet_int(); g_opens = nondet_int(); g_oracle_in = nondet_int(); io_input(nondet_int()); }
+#endif
+"""
+
+
 def build_unit(chk):
-    return chk.write("c02_unit.c", simunit.unit_text(chk) + simunit.HARNESS)
+    text = simunit.unit_text(chk)
+    # per-function contracts of the stream routing, spliced on the extracted signatures (enforced through dfcc as auxiliary jobs)
+    for sig, contract in (("static void io_output(char value, int stream) {", IO_OUTPUT_CONTRACT), ("static char io_input(int stream) {", IO_INPUT_CONTRACT),
+                          ("static void syscall(void) {", SYSCALL_CONTRACT)):
+        if text.count(sig) != 1:
+            raise hv.ExtractionError("cannot splice the contract: signature %r not found exactly once" % sig)
+        text = text.replace(sig, sig[:-1].rstrip() + contract + "{", 1)
+    return chk.write("c02_unit.c", text + simunit.HARNESS + IO_HARNESS)
 
 
 def native(chk, unit):
@@ -120,6 +175,10 @@ def main(chk, replay_file):
         J("step.contract", unit, "h_step", functions=["run() loop body", "syscall", "HexSimIO::output", "HexSimIO::input"],
           note="loop-free; all 2^128 register states x all memory contents x all defined bytes"),
         J("run_loop.contract", unit, "h_run_loop", functions=["run() loop condition and return"]),
+        J("io_output.contract", unit, "h_io_output", enforce="io_output", unwind=9, functions=["HexSimIO::output"], role="aux"),
+        J("io_input.contract", unit, "h_io_input", enforce="io_input", unwind=9, functions=["HexSimIO::input"], role="aux"),
+        J("syscall.contract", unit, "h_syscall", enforce="syscall", replace=["io_output", "io_input"], unwind=40, object_bits=12, functions=["Processor::syscall"], role="aux",
+          note="checked against the contracts of HexSimIO::output/input (calls replaced)"),
         J("step.canary", unit, "h_step", defines=["CANARY"], kind="canary", checks=[]),
         J("run_loop.canary", unit, "h_run_loop", defines=["CANARY"], kind="canary", checks=[]),
         J("step.cover", unit, "h_cover", kind="cover", cover=True, checks=[]),
@@ -134,6 +193,11 @@ def main(chk, replay_file):
     for j in jobs:
         r = j.result
         if j.kind != "proof" or r["status"] != "failed":
+            continue
+        if j.role == "aux":
+            # per-function contracts that fail while the complete step obligation holds: contract drift, not a violation
+            for f in r["failed"]:
+                chk.warnings.append("%s:%s %s" % (j.name, f["name"], f["desc"]))
             continue
         replayed = False
         for f in r["failed"]:
